@@ -20,6 +20,91 @@ import (
 
 func init() {
 	drivers["proc"] = driveProc
+	drivers["crcli"] = driveCrashCLI
+}
+
+// crcli: structurally valid diffs with arbitrary paths, and arbitrary line sequences, applied through the three
+// binaries with -p (C13: exit status 2 and a one-line message, never a stack trace).
+// Events: CliPatch(bin, raw, c, proc)
+func driveCrashCLI(p *Plan, shard int, w *Writer, t *codec.Table) {
+	v := drive.NewV2(t)
+	wild := loadHunks(p.Universe, "hunks_wild")
+	kinds := loadNdjson[codec.Line](p.Universe, "linekinds")
+	targets := crashTargets()
+	n := 240
+	if f, ok := p.Extra["n"].(float64); ok {
+		n = int(f)
+	}
+	tmp, err := os.MkdirTemp(p.Out, "crcli")
+	if err != nil {
+		fatal("%v", err)
+	}
+	defer os.RemoveAll(tmp)
+	for c := 0; c < n; c++ {
+		sess := c + 1
+		if sess%p.Shards != shard {
+			continue
+		}
+		var text string
+		want := ""
+		if c%3 != 2 {
+			h := wild[pick(p.Seed, len(wild), "cw", c)]
+			if len(h.Path) > 0 {
+				// a target of the kind the first path element addresses, so that the patcher gets past its type check
+				want = map[string]string{"idx": "A", "set": "A", "mset": "A", "setkeys": "A", "msetkeys": "A", "key": "O"}[h.Path[0].K]
+			}
+			r := drive.Guard(func() drive.Res { text = v.InjectDiff([]codec.Hunk{h}).Render(); return drive.Res{St: "ok"} })
+			if r.St != "ok" {
+				continue
+			}
+		} else {
+			k := 2 + pick(p.Seed, 4, "cl", c)
+			parts := make([]string, k)
+			for i := range parts {
+				parts[i] = lineText(t, kinds[pick(p.Seed, len(kinds), "ck", c, i)])
+			}
+			text = strings.Join(parts, "\n") + "\n"
+		}
+		tgt := targets[pick(p.Seed, len(targets), "ct", c)]
+		if want != "" && c%4 != 3 {
+			var fit []codec.Node
+			for _, x := range targets {
+				if x.K == want {
+					fit = append(fit, x)
+				}
+			}
+			tgt = fit[pick(p.Seed, len(fit), "cf", c)]
+		}
+		dir := filepath.Join(tmp, fmt.Sprint(sess))
+		os.MkdirAll(dir, 0755)
+		fd, ft := filepath.Join(dir, "d.jd"), filepath.Join(dir, "t.json")
+		os.WriteFile(fd, []byte(text), 0644)
+		os.WriteFile(ft, []byte(t.Text(tgt)), 0644)
+		// the v1 format has no context lines: the v1 binary gets the same hunk without them
+		var v1lines []string
+		for _, ln := range strings.Split(text, "\n") {
+			if ln == "" || (ln[0] != ' ' && ln[0] != '[' && ln[0] != ']' && ln[0] != '^') {
+				v1lines = append(v1lines, ln)
+			}
+		}
+		fd1 := filepath.Join(dir, "d1.jd")
+		os.WriteFile(fd1, []byte(strings.Join(v1lines, "\n")), 0644)
+		w.Sess[shard]++
+		for _, b := range []string{"v2", "top", "topv1"} {
+			argv := []string{"-p", fd, ft}
+			bin := p.Bins["v2"]
+			if b != "v2" {
+				bin = p.Bins["top"]
+			}
+			if b == "topv1" {
+				argv = []string{"-v2=false", "-p", fd1, ft}
+			}
+			po := runProc(bin, argv, nil, dir)
+			w.Emit(shard, Rec{"sess": sess, "op": "CliPatch", "bin": b, "raw": text, "c": tgt, "proc": po})
+		}
+		w.Emit(shard, Rec{"sess": sess, "op": "End"})
+		os.RemoveAll(dir)
+	}
 }
 
 // Inv mirrors the invocation record of Cli.tla.
